@@ -199,64 +199,6 @@ theorem LA_popSt {s : BSt} (h : LA s) (i : Nat) (st : Stmt) (rest : List Stmt)
   · exact h2 _ hk
 
 
-/-- the state without what the logger clean-up writes besides erasures and the cache refresh -/
-def stripL2 (s : BSt) : BSt :=
-  { s with sinks := [], out := [], log := [], hasInvalidLoggers := false, flags := [], flagLog := [], removalFlags := [] }
-
-theorem reapSinks_stripL2 (sids : List Nat) : ∀ (s : BSt), stripL2 (reapSinks s sids) = stripL2 s := by
-  unfold reapSinks
-  induction sids with
-  | nil => intro s; rfl
-  | cons x xs ih =>
-    intro s
-    simp only [List.foldl_cons]
-    rw [ih]; split <;> rfl
-
-/-- `cleanupLoggers`, with what is known at an erasure: the logger is invalid and everything was found empty -/
-theorem cleanupLoggers_pres2 (P : BSt → Prop) (hAll : ∀ x, P x → P (allEmpty x).1)
-    (hfr : ∀ x y, P x → stripL2 y = stripL2 x → P y)
-    (hErase : ∀ x i, P x → (x.lgOf i).valid = false → (allEmpty x).2 = true →
-      P ((allEmpty x).1.setLg i (fun l => { l with erased := true })))
-    (s : BSt) (hs : P s) : P (cleanupLoggers s) := by
-  unfold cleanupLoggers
-  split
-  · exact hs
-  · simp only []
-    have h0 : P { s with hasInvalidLoggers := false } := hfr s _ hs rfl
-    generalize insSorted _ ((List.range ({ s with hasInvalidLoggers := false } : BSt).lgs.length).filter _) = order
-    have hfold : ∀ (l : List Nat) (acc : BSt × List Nat), P acc.1 →
-        P (l.foldl (fun (acc : BSt × List Nat) i =>
-          if (acc.1.lgOf i).valid then acc else
-          if (allEmpty acc.1).2 then
-            (reapSinks ((allEmpty acc.1).1.setLg i (fun l => { l with erased := true })) (acc.1.lgOf i).sinks,
-              acc.2 ++ [(acc.1.lgOf i).gid])
-          else ({ (allEmpty acc.1).1 with hasInvalidLoggers := true }, acc.2)) acc).1 := by
-      intro l
-      induction l with
-      | nil => intro acc h; exact h
-      | cons i rest ih =>
-        intro acc h
-        simp only [List.foldl_cons]
-        apply ih
-        split
-        · exact h
-        · rename_i hv
-          split
-          · rename_i he
-            exact hfr _ _ (hErase acc.1 i h (by simpa using hv) he) (reapSinks_stripL2 _ _)
-          · exact hfr _ _ (hAll _ h) rfl
-    have h1 := hfold order ({ s with hasInvalidLoggers := false }, []) h0
-    revert h1
-    generalize order.foldl _ ({ s with hasInvalidLoggers := false }, ([] : List Nat)) = res
-    intro h1
-    obtain ⟨s1, removed⟩ := res
-    simp only []
-    apply foldl_pres P _ _ _ _ h1
-    intro x gid hx
-    split
-    · exact hfr _ _ hx rfl
-    · exact hx
-
 /-- the invariant C17 rests on -/
 def LInv (s : BSt) : Prop := TCInv s ∧ LA s
 
@@ -271,33 +213,23 @@ theorem allEmpty_lgs (s : BSt) : (allEmpty s).1.lgs = s.lgs := by
     | cons i rest ih => intro acc; simp only [List.foldl_cons]; rw [ih]; rfl
   rw [this]; unfold refreshCache; split <;> rfl
 
-theorem LInv_of_stripL2 {x y : BSt} (hx : LInv x) (h : stripL2 y = stripL2 x) : LInv y := by
-  refine ⟨⟨CInv_of_core ?_ hx.1.1, TInv_of_tview hx.1.2 ?_⟩, LA_of_lview hx.2 ?_⟩
-  · have h1 : core (stripL2 y) = core y := rfl
-    have h2 : core (stripL2 x) = core x := rfl
-    rw [← h1, h, h2]
-  · have h1 : tview (stripL2 y) = tview y := rfl
-    have h2 : tview (stripL2 x) = tview x := rfl
-    rw [← h1, h, h2]
-  · have h1 : lview (stripL2 y) = lview y := rfl
-    have h2 : lview (stripL2 x) = lview x := rfl
-    rw [← h1, h, h2]
+theorem LInv_of_views {x y : BSt} (hx : LInv x) (h1 : core y = core x) (h2 : tview y = tview x)
+    (h3 : lview y = lview x) : LInv y :=
+  ⟨⟨CInv_of_core h1 hx.1.1, TInv_of_tview hx.1.2 h2⟩, LA_of_lview hx.2 h3⟩
 
-theorem LInv_cleanupLoggers {s : BSt} (hs : LInv s) : LInv (cleanupLoggers s) := by
-  apply cleanupLoggers_pres2 LInv _ _ _ s hs
-  · intro x hx
-    exact ⟨TCInv_closed.allEmpty x hx.1, LA_allEmpty hx.2⟩
-  · intro x y hx h; exact LInv_of_stripL2 hx h
-  · intro x i hx hv he
-    have ha : TCInv (allEmpty x).1 := TCInv_closed.allEmpty x hx.1
-    have hd := allEmpty_drained x hx.1 he
-    refine ⟨⟨CInv_of_core rfl ha.1, TInv_of_tview ha.2 rfl⟩, ?_⟩
-    apply (LA_allEmpty hx.2).erase i
-    · simp only [BSt.lgOf, allEmpty_lgs]; exact hv
-    · intro j hj st hst
-      obtain ⟨d1, d2⟩ := hd j hj
-      rw [d1, d2] at hst
-      rcases hst with hst | hst <;> cases hst
+/-- **the erase step**: behind an emptiness check that answered yes on the *current* state, an invalid logger can be
+    erased — nothing is waiting in any context, and nobody is parked in a call through an invalid logger -/
+theorem LInv_erase {x : BSt} (hx : LInv x) (i : Nat) (hv : (x.lgOf i).valid = false) (he : (allEmpty x).2 = true) :
+    LInv ((allEmpty x).1.setLg i (fun l => { l with erased := true })) := by
+  have ha : TCInv (allEmpty x).1 := TCInv_closed.allEmpty x hx.1
+  have hd := allEmpty_drained x hx.1 he
+  refine ⟨⟨CInv_of_core rfl ha.1, TInv_of_tview ha.2 rfl⟩, ?_⟩
+  apply (LA_allEmpty hx.2).erase i
+  · simp only [BSt.lgOf, allEmpty_lgs]; exact hv
+  · intro j hj st hst
+    obtain ⟨d1, d2⟩ := hd j hj
+    rw [d1, d2] at hst
+    rcases hst with hst | hst <;> cases hst
 
 theorem LInv_closed : Closed LInv where
   front := fun s f h => ⟨TCInv_closed.front s f h.1, LA_front s f h.1.1 h.2⟩
@@ -309,7 +241,10 @@ theorem LInv_closed : Closed LInv where
   allEmpty := fun s h => ⟨TCInv_closed.allEmpty s h.1, LA_allEmpty h.2⟩
   hasPending := fun s h => ⟨TCInv_closed.hasPending s h.1, LA_hasPending h.2⟩
   cleanupContexts := fun s h => ⟨TCInv_closed.cleanupContexts s h.1, LA_cleanupContexts h.2⟩
-  cleanupLoggers := fun s h => LInv_cleanupLoggers h
+  invFlag := fun s b h => LInv_of_views h rfl rfl rfl
+  erase := fun s i h hv he => LInv_erase h i hv he
+  reap := fun s sid h _ _ => LInv_of_views h rfl rfl rfl
+  flagRemoval := fun s f g h => LInv_of_views h rfl rfl rfl
   flushSinks := fun s h => ⟨TCInv_closed.flushSinks s h.1, LA_of_lview h.2 (flushSinks_lview s)⟩
   readPrep := fun s i h => ⟨TCInv_closed.readPrep s i h.1, by
     unfold readPrepSt; exact h.2.setTh_keep i _ (fun _ => rfl) (fun _ => rfl)⟩
